@@ -134,6 +134,16 @@ def part_latest(ctx, rng, work, events, meta, quick):
             chosen = times[vi - 1] if 1 <= vi <= len(times) else -1
         events.append({"k": "latest", "times": times, "chosen": chosen, "ok": bool(rl.ok), "err": rl.describe()})
         meta.append(dict(m0, what="Grid.loadFromFile(time=None)"))
+        # Grid.loadFromFile(time=t) for every checkpoint present: the requested one must be loaded
+        for t in times:
+            rl = MPI.run(2, load_job, args=(shape, [1, 2], lay, folder, t, float))
+            got = -1
+            if rl.ok:
+                b = rl.values[0]["block"]
+                vi = b[0] // 1000003 if b else -1
+                got = times[vi - 1] if 1 <= vi <= len(times) else -1
+            events.append({"k": "latest", "times": [t], "chosen": got, "ok": bool(rl.ok), "err": rl.describe()})
+            meta.append(dict(m0, what="Grid.loadFromFile(time=%d)" % t))
         # setupFromFile: latest, and an explicitly requested time
         rl = MPI.run(3, setup_job, args=(folder, {}))
         chosen, tret = -1, -1
